@@ -758,7 +758,7 @@ PROPS = {
         "rule": "(a) panic predicates of the model vs real panics (catch_unwind) of substitute / tau* / the TPTP printer on generated inputs incl. sort-incompatible substitutions, V<usize::MAX>, isize::MIN/MAX; "
                 "(b) the real CLI on byte strings obtained by mutating the repo's example files and adversarial seeds (token deletion / duplication / swap, numeral inflation to the integer limits, operator soup, "
                 "unbalanced and deep parentheses, empty and comment-only files) through parse / translate / simplify / analyze / verify --no-proof-search: outcome class output | error+non-zero exit | panic | signal | timeout(20 s)",
-        "level_text": "Partial: substitute_panic_free (no panic on sort-compatible arguments, for every formula and every renaming), globals_panic_iff, tptp_panic_free proved on the model; two crashes repaired (ca17dcd, 3401bdf); "
+        "level_text": "Partial: substitute_panic_free (no panic on sort-compatible arguments, for every formula and every renaming), globals_panic_iff, tptp_panic_free, external_panic_only_overflow (the whole external-equivalence pipeline - checks, tau*, placeholder replacement, completion, simplification, outline construction, assembly - panics only on the overflow of the global-variable index; completion_of_tau_star_exists: the expect in theory_translate is unreachable) proved on the model; two crashes repaired (ca17dcd, 3401bdf); "
                       "two crash classes remain as known findings (numerals beyond the integer type, global index overflow); stack depth, allocation and hangs are not expressible in the model and are covered by the CLI exploration only.",
         "level_note": PROOF_NOTE + " The pest parsers and the tree builders' integer parsing are exercised, not modelled.",
         "technique": "Lean 4 proof (panic-site predicates of the model) + differential correspondence of panics + CLI mutation exploration",
